@@ -969,6 +969,22 @@ class CallGraph:
             elif isinstance(fn, ast.Attribute):
                 for callee, precise in self.resolve_method(fn, f, types):
                     out.append((callee, precise, n))
+            elif isinstance(fn, ast.Call) and isinstance(fn.func, ast.Name) and fn.func.id == "getattr" and len(fn.args) >= 2:
+                # getattr(obj, <name>)(...): the possible names are resolved (constant, or values of a constant dispatch table)
+                names = self.dynamic_names(f, fn.args[1])
+                for nm in (names if names is not None else [None]):
+                    fake = ast.Attribute(value=fn.args[0], attr=nm or "__unknown__", ctx=ast.Load())
+                    if nm is not None:
+                        for callee, precise in self.resolve_method(fake, f, types):
+                            out.append((callee, precise, n))
+                    else:
+                        # unknown name: any method of the receiver's class(es), else of every class (imprecise)
+                        cs = [c for k, c in self.expr_types(fn.args[0], f, types) if k == "inst"]
+                        if isinstance(fn.args[0], ast.Name) and fn.args[0].id in self.cm_params(f):
+                            cs = [self.cm_cls]
+                        for c in (cs or list(self.m.classes.values())):
+                            for mm in c.methods.values():
+                                out.append((mm, False, n))
             # classes / functions passed as arguments may be called by the callee
             for a in list(n.args) + [k.value for k in n.keywords]:
                 if isinstance(a, ast.Name):
@@ -978,6 +994,52 @@ class CallGraph:
                         if init is not None:
                             out.append((init, True, n))
         return out
+
+    def dynamic_names(self, f, e, depth=0):
+        """possible string values of expression e (method name used with getattr) or None when not enumerable"""
+        if depth > 4:
+            return None
+        if isinstance(e, ast.Constant) and isinstance(e.value, str):
+            return [e.value]
+        if isinstance(e, ast.Name):
+            defs = [n.value for n in walk_no_nested(f.node) if isinstance(n, ast.Assign) and any(isinstance(t, ast.Name) and t.id == e.id for t in n.targets)]
+            if not defs:
+                tbl = f.module.assigns.get(e.id)
+                return self.dynamic_names(f, tbl, depth + 1) if tbl is not None else None
+            out = []
+            for d in defs:
+                r = self.dynamic_names(f, d, depth + 1)
+                if r is None:
+                    return None
+                out += r
+            return out
+        if isinstance(e, ast.IfExp):
+            a, b = self.dynamic_names(f, e.body, depth + 1), self.dynamic_names(f, e.orelse, depth + 1)
+            return None if a is None or b is None else a + b
+        tbl = None
+        if isinstance(e, ast.Call) and isinstance(e.func, ast.Attribute) and e.func.attr == "get":
+            tbl = e.func.value
+            extra = e.args[1:]
+        elif isinstance(e, ast.Subscript):
+            tbl = e.value
+            extra = []
+        if tbl is not None:
+            node = None
+            if isinstance(tbl, ast.Attribute) and isinstance(tbl.value, ast.Name) and tbl.value.id in ("self", "cls") and f.cls is not None:
+                node = f.cls.lookup_attr(tbl.attr)
+            elif isinstance(tbl, ast.Attribute) and isinstance(tbl.value, ast.Name) and tbl.value.id in self.m.classes:
+                node = self.m.classes[tbl.value.id].lookup_attr(tbl.attr)
+            elif isinstance(tbl, ast.Name):
+                node = f.module.assigns.get(tbl.id)
+            if isinstance(node, ast.Dict) and all(isinstance(v, ast.Constant) and isinstance(v.value, str) for v in node.values):
+                out = [v.value for v in node.values]
+                for x in extra:
+                    if isinstance(x, ast.Constant) and isinstance(x.value, str):
+                        out.append(x.value)
+                    elif not (isinstance(x, ast.Constant) and x.value is None):
+                        return None
+                return out
+        return None
 
     def closure(self, roots):
         """-> {qualname: (Func, precise_path: bool, parent qualname)}; precise_path is True when some path
